@@ -18,7 +18,7 @@ BodyRules(c) ==
       [] c = SET_VRING_ADDR -> {"flags_undef", "desc_unaligned", "used_unaligned", "avail_unaligned"}
       [] c \in {SET_VRING_KICK, SET_VRING_CALL, SET_VRING_ERR} -> {"nofdbit_with_fd", "fdbit_without_fd"}
       [] c = SET_VRING_ENABLE -> {"num2"}
-      [] c \in {GET_CONFIG, SET_CONFIG} -> {"size0", "end_gt", "wrap", "flags_undef", "payload_short", "payload_long"}
+      [] c \in {GET_CONFIG, SET_CONFIG} -> {"size0", "end_gt", "wrap", "size_huge", "flags_undef", "payload_short", "payload_long"}
       [] c \in {GET_INFLIGHT_FD, SET_INFLIGHT_FD} -> {"nq0", "qs0"}
       [] c \in {ADD_MEM_REG, REM_MEM_REG} -> {"size0", "gpa_wrap", "ua_wrap", "off_wrap", "size_max"}
       [] c = GET_SHARED_OBJECT -> {"nil", "max"}
